@@ -11,8 +11,10 @@ VERIF = os.path.dirname(os.path.dirname(os.path.abspath(__file__)))
 REPO = os.environ.get("VERIF_REPO", "/repo")
 TLA = os.path.join(VERIF, "tla")
 HARNESS = os.path.join(VERIF, "harness")
-EVID = os.path.join(VERIF, "evidence")
-OUT = os.path.join(VERIF, "out")
+# evidence and replay artefacts of runs against a scratch tree (seeded changes) never overwrite those of /repo
+_ALT = os.environ.get("VERIF_OUT") if REPO != "/repo" else None
+EVID = os.path.join(_ALT, "evidence") if _ALT else os.path.join(VERIF, "evidence")
+OUT = os.path.join(_ALT, "out") if _ALT else os.path.join(VERIF, "out")
 BIN = os.path.join(VERIF, "bin")
 NCPU = os.cpu_count() or 4
 
